@@ -74,6 +74,12 @@ CHECKS["C17"] = dict(
     design_ref="DESIGN.md 6 C17",
     note="Trusted: ff::helpers::sqrt_tonelli_shanks (external crate) given correct constants; Field::invert's 'None only for zero' flag and SubgroupPoint/RistrettoPoint GroupEncoding are covered only through the shared decoders of C02/C03/C06 (not separately in this round); random() excluded (rejection loop).",
     technique="ground SMT on constants read from LLVM IR + symbolic execution of the O0 IR with kernel contracts (llsym) ")
+CHECKS["C14"] = dict(
+    category="model_checking",
+    text="Memory-level symbolic execution of the compiled drop glue and of the heap-using secret-scalar code: (1) drop_in_place of SigningKey, ExpandedSecretKey (ed25519-dalek) and EphemeralSecret, ReusableSecret, StaticSecret, SharedSecret (x25519-dalek) is executed from the O0 and the release LLVM IR (linked with the IR of zeroize and the other dependencies as compiled into the crate) on an object whose every byte is a distinct symbolic value; the solver must find no assignment leaving a non-zero byte in a secret field (offsets via offset_of!), i.e. erasure holds for every secret value and survives optimisation (volatile stores); (2) Zeroize::zeroize of Scalar, EdwardsPoint, RistrettoPoint, the compressed forms, MontgomeryPoint (-> zero / identity / identity encoding) and of the internal Niels forms and FieldElement (-> erased); (3) heap: constant-time Straus multiscalar_mul (n = 1, 2[, 3]) and Scalar::batch_invert (n = 1..3[, 4, 6]) are executed with every scalar digit / byte symbolic and, at EVERY __rust_dealloc, each cell of the freed block must be a constant - no cell may hold a value derived from a secret scalar (all non-constant data in these calls derives from the secrets; public points are tracked separately as group elements).",
+    design_ref="DESIGN.md 6 C14",
+    note="Trusted: the volatile-store semantics the zeroize crate relies on (a volatile store in the IR is emitted as a store); stack copies left behind by moves are outside the property (and outside what the type system lets the crates control). Bounds: batch sizes n as listed (the loops are uniform in n; the allocation pattern - one scratch / digit buffer of n elements - is the same for every n >= 1, larger n not run); serial backend copy of Straus (the AVX2/IFMA copy uses the Zeroizing<Vec> wrapper and is covered when listed in evidence). Scalar kernels inside batch_invert are summarised as havoc (fresh outputs), which over-approximates dependence.",
+    technique="symbolic execution of rustc-emitted LLVM IR with a byte-precise memory model (llsym), erasure goals discharged by the SMT solver / constant folding; dealloc hook = the instrumenting allocator of the property's observe_at")
 NOT_YET = {}
 for i in range(2, 18):
     NOT_YET["C%02d" % i] = "check under construction in this round (see DESIGN.md 6 for the planned solver-based check); not claimed until it runs green"
